@@ -15,6 +15,10 @@ Static rules (DESIGN.md §C01); all are necessary conditions of the identity, no
  hermi-half         contract_wv halves the density and tau rows exactly once; every integrator calls
                     lib.hermi_sum exactly once after the last contract_wv and adds v1 after it; gradient
                     functions halve exactly once before _gga_grad_sum_ / _tau_grad_dot_
+ level-flag         a level / mode flag handed to a helper that reads the tau row (index 4) of the density only under
+                    that flag is derived from the settings level that determines how many rho rows exist; a literal
+                    True / False (or the default) in a level-dependent function, or where a sibling call passes the
+                    settings-derived value, is reported
  energy-nelec       nelec and excsum are accumulated from the same density, at the same batch slot, which is
                     the induction variable of the enclosing batch loop
 """
@@ -495,6 +499,116 @@ def rule_scale(chk):
 
 
 # ----------------------------------------------------------------------------
+LEVEL_SCAN = [NUMINT, RKSG, UKSG, "ciderpress/dft/plans.py", "ciderpress/dft/lcao_nldf_generator.py",
+              "ciderpress/pyscf/sdmx.py", "ciderpress/dft/xc_evaluator2.py"]
+LEVEL_WORDS = ("MGGA", "GGA", "LDA")
+
+
+def _level_flag_params(tree):
+    """{function name: {param: (rel, default)}}: boolean / mode parameters of helpers that decide whether the tau row
+    (index 4) of a density array parameter is read - the row a GGA-level density does not have"""
+    out = {}
+    for rel in LEVEL_SCAN:
+        if not tree.exists(rel):
+            continue
+        mod = tree.py(rel)
+        for fn in ast.walk(mod):
+            if not isinstance(fn, ast.FunctionDef):
+                continue
+            params = [a.arg for a in fn.args.args + fn.args.kwonlyargs]
+            dflt = dict(zip([a.arg for a in fn.args.args][len(fn.args.args) - len(fn.args.defaults):], fn.args.defaults))
+            for q in params:
+                hit = False
+                for n in pf.walk_no_nested(fn):
+                    if isinstance(n, (ast.If, ast.IfExp)) and q in {x.id for x in ast.walk(n.test) if isinstance(x, ast.Name)}:
+                        body = n.body if isinstance(n, ast.If) else [n.body]
+                        for b in body:
+                            for x in ast.walk(b):
+                                if isinstance(x, ast.Subscript) and pf.base_name(x) in params and any(
+                                        isinstance(c, ast.Constant) and c.value == 4 for c in ast.walk(x.slice)):
+                                    hit = True
+                if hit:
+                    out.setdefault(fn.name, {})[q] = (rel, dflt.get(q))
+    return out
+
+
+def _level_evidence(fn):
+    """the function distinguishes semilocal levels itself (xctype == 'MGGA', settings level, nvar rows)"""
+    for n in ast.walk(fn):
+        if isinstance(n, ast.Compare) and any(isinstance(c, ast.Constant) and c.value in LEVEL_WORDS
+                                              for c in [n.left] + list(n.comparators)):
+            return pf.src(n)
+        if isinstance(n, ast.Attribute) and n.attr in ("level", "sl_level"):
+            return pf.src(n)
+    return None
+
+
+def rule_level_flag(chk):
+    flags = _level_flag_params(chk.tree)
+    if not flags:
+        raise core.AnalysisError("no helper with a level flag guarding the tau row (rho[..., 4]) found in %s" % LEVEL_SCAN[3])
+    sites = []
+    for rel in LEVEL_SCAN:
+        if not chk.tree.exists(rel):
+            continue
+        mod = chk.tree.py(rel)
+        for c in ast.walk(mod):
+            if not isinstance(c, ast.Call):
+                continue
+            name = c.func.id if isinstance(c.func, ast.Name) else (c.func.attr if isinstance(c.func, ast.Attribute) else None)
+            if name not in flags:
+                continue
+            fn = pf.enclosing_func(c)
+            for q, (drel, dflt) in flags[name].items():
+                # the argument bound to q
+                arg = None
+                for k in c.keywords:
+                    if k.arg == q:
+                        arg = k.value
+                if arg is None:
+                    # positional binding through the callee's signature
+                    callee = [f for f in ast.walk(chk.tree.py(drel)) if isinstance(f, ast.FunctionDef) and f.name == name]
+                    if callee:
+                        ps = [a.arg for a in callee[0].args.args]
+                        off = 1 if (ps and ps[0] in ("self", "cls") and isinstance(c.func, ast.Attribute)) else 0
+                        if q in ps and ps.index(q) - off < len(c.args):
+                            arg = c.args[ps.index(q) - off]
+                if arg is None and q not in [a.arg for f in ast.walk(chk.tree.py(drel)) if isinstance(f, ast.FunctionDef)
+                                             and f.name == name for a in f.args.args + f.args.kwonlyargs]:
+                    continue
+                sites.append((rel, fn, c, name, q, arg, dflt))
+    derived_somewhere = {}
+    for rel, fn, c, name, q, arg, dflt in sites:
+        if arg is not None and not isinstance(arg, ast.Constant):
+            derived_somewhere[(name, q)] = "%s:%s" % (rel, pf.src(arg))
+    for rel, fn, c, name, q, arg, dflt in sites:
+        fq = pf.qualname(fn) if fn is not None else "<module>"
+        eff = arg if arg is not None else dflt
+        inst = "%s:%s %s(%s=%s)" % (rel, fq, name, q, pf.src(eff) if eff is not None else "<required>")
+        if eff is None or not isinstance(eff, ast.Constant):
+            mentions = eff is not None and any(
+                (isinstance(x, ast.Attribute) and x.attr in ("level", "sl_level")) or
+                (isinstance(x, ast.Name) and x.id in ("xctype", "is_mgga", "level"))
+                or (isinstance(x, ast.Constant) and x.value in LEVEL_WORDS) for x in ast.walk(eff))
+            chk.ok("level-flag", inst, nontrivial=bool(mentions))
+            continue
+        ev = _level_evidence(fn) if fn is not None else None
+        sib = derived_somewhere.get((name, q))
+        if ev is None and sib is None:
+            chk.ok("level-flag", inst + " (no level dependence in sight: not decided)", nontrivial=False)
+            chk.note("level-flag", "%s:%s" % (rel, fq), "%s(%s=%s) uses a fixed level; neither the caller nor a sibling call is "
+                     "level dependent" % (name, q, pf.src(eff)))
+            continue
+        chk.violation("level-flag", rel, fq, "%s(%s=%s)" % (name, q, pf.src(eff)), c.lineno,
+                      "`%s` decides whether the tau row (index 4) of the density passed to %s is read, and is fixed to %s "
+                      "here%s, while %s: for a model of the other semilocal level the helper reads a row the density does "
+                      "not have (IndexError for GGA-level models) or drops tau; pass the settings-derived level" % (
+                          q, name, pf.src(eff), "" if arg is not None else " (the default)",
+                          ("the enclosing function is level dependent (`%s`)" % ev) if ev else
+                          ("the sibling call %s passes the settings-derived value" % sib)), instance=inst)
+
+
+# ----------------------------------------------------------------------------
 def _count_top(fn, pred):
     return [st for st in fn.body if pred(st)]
 
@@ -714,12 +828,15 @@ def _analyse_rules(chk):
     chk.rule("ladder-mirror", "forward and backward family ladders of eval_xc_cider mirror each other")
     chk.rule("scale-pair", "in-place scaling of the ML energy is applied to its derivative too")
     chk.rule("hermi-half", "one 1/2 in contract_wv + one hermi_sum (+ v1 after it); gradients halve once")
+    chk.rule("level-flag", "a flag that makes a helper read the tau row of rho is derived from the settings level, not a literal")
     chk.rule("energy-nelec", "nelec / excsum from the same density and batch slot of the enclosing batch loop")
     chk.guard(rule_consume)
     chk.guard(rule_ladder)
     chk.guard(rule_scale)
     chk.guard(rule_hermi_half)
     chk.guard(rule_energy_nelec)
+    chk.guard(rule_level_flag)
+    chk.floor("level-flag", 2, "calls of the rho-tuple helpers that carry the semilocal level")
     chk.floor("potential-consume", 18, "12 functions x 3 potentials")
     chk.floor("ladder-mirror", 10, "2 guards + order + 8 rungs + 8 stores/reads + 2 hand-outs")
     chk.floor("scale-pair", 1, "xmix pair + direct potential")
@@ -790,6 +907,11 @@ def mutants(tree):
                "                excsum[i] += np.dot(den_a, exc)\n                excsum[i] += np.dot(den_b, exc)\n                wv = weight * vxc\n                yield i, ao, mask, wv\n\n    buffers = None",
                "                excsum[i] += np.dot(den_a, exc)\n                excsum[i] += np.dot(den_a, exc)\n                wv = weight * vxc\n                yield i, ao, mask, wv\n\n    buffers = None",
                expect="energy-nelec"),
+        Mutant("libxc density tuple built at a fixed meta-GGA level", NUMINT,
+               'rho, is_mgga=self.settings.sl_settings.level == "MGGA"', "rho, is_mgga=True", expect="level-flag"),
+        Mutant("plan builds the density tuple without tau regardless of the level", "ciderpress/dft/plans.py",
+               'rho_data, with_spin=with_spin, is_mgga=self.nldf_settings.sl_level == "MGGA"',
+               "rho_data, with_spin=with_spin", expect="level-flag"),
         Mutant("density without weight (nr_rks)", NUMINT, "                den = rho[0] * weight\n                nelec[i] += den.sum()",
                "                den = rho[0]\n                nelec[i] += den.sum()", expect="energy-nelec"),
         Mutant("energy and count in different slots (nr_rks_nldf)", NUMINT, "                excsum[idm] += np.dot(den, exc)\n                wv_full",
